@@ -45,15 +45,16 @@ import (
 )
 
 type Abci struct {
-	Env     *Env
-	App     *app.App
-	ChainID string
-	Height  int64
-	Now     time.Time
-	Privs   map[string]cryptotypes.PrivKey
-	TxCfg   client.TxConfig
-	rnd     *rand.Rand
-	home    string
+	Env      *Env
+	App      *app.App
+	ChainID  string
+	Height   int64
+	Now      time.Time
+	Privs    map[string]cryptotypes.PrivKey
+	TxCfg    client.TxConfig
+	rnd      *rand.Rand
+	home     string
+	Panicked bool // the last block panicked inside FinalizeBlock / ProcessProposal
 }
 
 func userKeys(n int) []cryptotypes.PrivKey {
@@ -190,7 +191,15 @@ func (ab *Abci) ctx() sdk.Context {
 }
 
 // block runs ProcessProposal (which resets the finalize state), FinalizeBlock and, on success, Commit.
-func (ab *Abci) block(t time.Time, txs [][]byte, fault int, out **abci.ResponseFinalizeBlock) error {
+func (ab *Abci) block(t time.Time, txs [][]byte, fault int, out **abci.ResponseFinalizeBlock) (err error) {
+	// baseapp does not recover a panic of a module's block hook: the node would crash. Record it as a failed block.
+	defer func() {
+		if r := recover(); r != nil {
+			ab.Env.B.fault.Armed = false
+			ab.Panicked = true
+			err = fmt.Errorf("panic: %v", r)
+		}
+	}()
 	fs := ab.Env.B.fault
 	// The application enables optimistic execution: ProcessProposal already starts executing the block in
 	// the background and FinalizeBlock then waits for that result, so the fault must be armed beforehand.
@@ -199,7 +208,8 @@ func (ab *Abci) block(t time.Time, txs [][]byte, fault int, out **abci.ResponseF
 		fs.Armed = false
 		return fmt.Errorf("process proposal: %w", err)
 	}
-	resp, err := ab.App.FinalizeBlock(&abci.RequestFinalizeBlock{Height: ab.Height + 1, Time: t, Txs: txs})
+	var resp *abci.ResponseFinalizeBlock
+	resp, err = ab.App.FinalizeBlock(&abci.RequestFinalizeBlock{Height: ab.Height + 1, Time: t, Txs: txs})
 	if os.Getenv("FR_DEBUG") != "" {
 		fmt.Fprintf(os.Stderr, "block h=%d t=%v fault=%d count=%d countdown=%d err=%v\n", ab.Height+1, t, fault, fs.Count, fs.Countdown, err)
 	}
@@ -274,11 +284,32 @@ func (ab *Abci) line(act map[string]any, ok bool, errs string, evs sdk.Events) S
 	return st
 }
 
+func (ab *Abci) dryRun(t time.Time) (nx int, panicked bool, msg string) {
+	e := ab.Env
+	fs := e.B.fault
+	dctx, _ := ab.ctx().WithBlockTime(t).WithEventManager(sdk.NewEventManager()).CacheContext()
+	fs.Armed, fs.Count = false, 0
+	func() {
+		defer func() {
+			if r := recover(); r != nil {
+				panicked, msg = true, fmt.Sprint(r)
+			}
+		}()
+		_ = e.K.BeginBlocker(dctx)
+	}()
+	return fs.Count, panicked, msg
+}
+
 // settle produces empty blocks at the current time until the module state stops changing.
 func (ab *Abci) settle() ([]Step, error) {
 	var steps []Step
 	for i := 0; i < 40; i++ {
 		before, _ := ab.Env.Project(ab.ctx())
+		if _, panicked, perr := ab.dryRun(ab.Now); panicked {
+			st := ab.line(map[string]any{"a": "Block", "t": TimeTick(ab.Now), "fault": 0}, false, "panic in the block hook: "+perr, nil)
+			st.Extra.Panic = true
+			return append(steps, st), fmt.Errorf("block hook panics")
+		}
 		var resp *abci.ResponseFinalizeBlock
 		if err := ab.block(ab.Now, nil, 0, &resp); err != nil {
 			steps = append(steps, ab.line(map[string]any{"a": "Block", "t": TimeTick(ab.Now), "fault": 0}, false, err.Error(), nil))
@@ -302,23 +333,26 @@ func (ab *Abci) Exec(a Action, raw map[string]any) ([]Step, error) {
 	case "Block":
 		t := TickTime(a.T)
 		var nx int
+		// Dry run of the module's block hook on a discarded cache branch of the committed state: it tells how many model
+		// transfers the block makes (a FinalizeBlock cannot be undone: it writes the working hash) and whether the hook
+		// panics.  With optimistic execution a panic happens in a background goroutine and kills the process (the node),
+		// so a block whose hook panics is recorded as failed with panic=true and is not sent to FinalizeBlock.
+		dnx, panicked, perr := ab.dryRun(t)
 		if a.Fault > 0 {
-			// dry run on a discarded cache branch of the committed state to learn how many model transfers the
-			// module's block hook makes (a FinalizeBlock cannot be undone: it writes the working hash)
-			fs := e.B.fault
-			dctx, _ := ab.ctx().WithBlockTime(t).WithEventManager(sdk.NewEventManager()).CacheContext()
-			fs.Armed, fs.Count = false, 0
-			func() {
-				defer func() { _ = recover() }()
-				_ = e.K.BeginBlocker(dctx)
-			}()
-			nx = fs.Count
+			nx = dnx
+		}
+		if panicked {
+			st := ab.line(raw, false, "panic in the block hook: "+perr, nil)
+			st.Extra.Panic, st.Extra.Nx = true, nx
+			return []Step{st}, nil
 		}
 		var resp *abci.ResponseFinalizeBlock
+		ab.Panicked = false
 		err := ab.block(t, nil, int(a.Fault), &resp)
 		var st Step
 		if err != nil {
 			st = ab.line(raw, false, err.Error(), nil)
+			st.Extra.Panic = ab.Panicked
 		} else {
 			st = ab.line(raw, true, "", abciEvents(resp.Events))
 			if a.Fault == 0 {
@@ -391,7 +425,7 @@ func ReplayAbci(name string, bz []byte, emit func(Step) error) error {
 			}
 		}
 		if err != nil {
-			return err
+			return nil // the behaviour cannot continue (e.g. the block hook panics): the recorded steps end here
 		}
 	}
 	return nil
